@@ -45,6 +45,10 @@ def cases(ctx: Ctx):
     (d / "twogroups.ucl").write_text("\n".join(encoders.uclchem(x) for x in two) + "\n")
     late = [rec(["C", "O"], ["CO"], "MA"), rec(["CO"], ["C", "O"], "PHOTON"), rec(["H", "H"], ["H2"], "MA"), rec(["H2"], ["H", "H"], "CRP")]
     (d / "h2late.ucl").write_text("\n".join(encoders.uclchem(x) for x in late) + "\n")
+    ion = [rec(["H2+", "E-"], ["H", "H"], "MA"), rec(["H", "H+"], ["H2+"], "MA"), rec(["H"], ["H+", "E-"], "CRP")]
+    (d / "h2ion.ucl").write_text("\n".join(encoders.uclchem(x) for x in ion) + "\n")
+    ice = [rec(["H", "H"], ["#H2"], "MA"), rec(["#H2"], ["H", "H"], "THERM"), rec(["C", "O"], ["CO"], "MA"), rec(["CO"], ["#CO"], "FREEZE"), rec(["#CO"], ["CO"], "THERM")]
+    (d / "h2ice.ucl").write_text("\n".join(encoders.uclchem(x) for x in ice) + "\n")
     (d / "k1.krome").write_text("@format:idx,R,R,P,P,Tmin,Tmax,rate\n1,H,H,H2,,NONE,NONE,1.0d-10*sqrTgas\n")
     (d / "k2.krome").write_text("@common:user_crate,user_Av\n@var:ncolH=1.0d21*user_Av\n@format:idx,R,P,P,rate\n2,H2,H,H,1.0d-17*user_crate*exp(-1.0d0*ncolH/1.0d21)\n")
     # a user variable defined twice in the header, with a dependent in between: the redefinition replaces the value IN PLACE
@@ -79,6 +83,8 @@ def cases(ctx: Ctx):
         ("leeds grains+hh93", dict(filelist=str(d / "grain.leeds"), fileformats="leeds", grain_model="hh93"), "cvode", "dense"),
         ("krome redefined variable", dict(filelist=str(d / "k3.krome"), fileformats="krome"), "cvode", "sparse"),
         ("uclchem without H2", dict(filelist=str(data / "minimal.ucl"), fileformats="uclchem"), "cvode", "dense"),
+        ("uclchem H2+ without H2", dict(filelist=str(d / "h2ion.ucl"), fileformats="uclchem"), "cvode", "dense"),
+        ("uclchem #H2 without H2", dict(filelist=str(d / "h2ice.ucl"), fileformats="uclchem", grain_model="rr07x"), "cvode", "sparse"),
         ("krome two @common lines", dict(filelist=str(d / "k4.krome"), fileformats="krome"), "odeint", "rosenbrock4"),
         ("long identifiers", dict(filelist=str(d / "long.naunet"), fileformats="naunet"), "cvode", "sparse"),
         ("uclchem H2 late", dict(filelist=str(d / "h2late.ucl"), fileformats="uclchem"), "cvode", "sparse"),
